@@ -371,8 +371,22 @@ def heston_ob(aspect=None):
         def lemmas(state):
             k3, k4 = lift(state['k3']), lift(state['k4'])
             v0_, v1_ = state['v0'], state['v1']
+            i = lift(state['i_step'])               # already incremented by the cut: the column written is i
+            ls, zz = state['log_spot'], state['randn']
+            rho, sg, ka, th, dt_ = V['rho'], V['sigma'], V['kappa'], V['theta'], V['dt']
+            half_dt = tm.mul(tm.const(0.5), dt_)
+
+            def step(n):
+                # the exact representation  d log S = -v/2 dt + (rho/sigma)(dv - kappa(theta - v) dt) + sqrt(1-rho^2) sqrt(v) dW_perp,
+                # with the time integral of v over the step taken by the trapezoid rule (Andersen, gamma1 = gamma2 = 1/2)
+                a, b = v0_.at((n,)), v1_.at((n,))
+                intv = tm.mul(half_dt, tm.add(a, b))
+                drift = tm.add(tm.mul(tm.const(-0.5), intv), tm.mul(tm.div(rho, sg), tm.add(tm.sub(b, a), tm.neg(tm.mul(ka, th, dt_)), tm.mul(ka, intv))))
+                diff_ = tm.mul(tm.app('sqrt', tm.mul(tm.sub(tm.ONE, tm.mul(rho, rho)), intv)), zz.at((n, tm.sub(i, tm.IONE))))
+                return tm.eq(ls.at((n, i)), tm.add(ls.at((n, tm.sub(i, tm.IONE))), drift, diff_))
             return [('k3 >= 0 and k4 >= 0 (|rho| <= 1)', tm.and_(tm.ge(tm.toreal(k3), tm.ZERO), tm.ge(tm.toreal(k4), tm.ZERO))),
-                    ('sqrt argument k3 v0 + k4 v1 >= 0', lambda n: tm.ge(tm.add(tm.mul(tm.toreal(k3), v0_.at((n,))), tm.mul(tm.toreal(k4), v1_.at((n,)))), tm.ZERO), tm.IZERO, N)]
+                    ('sqrt argument k3 v0 + k4 v1 >= 0', lambda n: tm.ge(tm.add(tm.mul(tm.toreal(k3), v0_.at((n,))), tm.mul(tm.toreal(k4), v1_.at((n,)))), tm.ZERO), tm.IZERO, N),
+                    (LAW + 'one step: log S\' = log S - (1/2) I + (rho/sigma)(v\' - v - kappa theta dt + kappa I) + sqrt((1-rho^2) I) Z,  I = dt (v + v\')/2: the return loads on the variance move with rho/sigma', step, tm.IZERO, N)]
         cut, info = cutloops.cut(hmod.generate_heston, {0: cutloops.LoopSpec(inv, name='for i_step', lemmas=lemmas)}, stubs={'generate_cir': cir_stub})
 
         def run(c):
